@@ -14,6 +14,9 @@ from common import crash_signature, panic_signature, rng_for
 LEVEL = "exploration"
 
 PLAIN = re.compile(r"^-?\d+(\.\d+)?$")
+import decimal as _decimal
+
+CTX34 = _decimal.Context(prec=34, rounding=_decimal.ROUND_HALF_EVEN, Emax=6144, Emin=-6143, clamp=1, traps=[])
 
 
 def strict_json_number(text):
@@ -110,6 +113,76 @@ def run(rep, tier, seed):
                 _cross_check(rep, case, res)
             if case["op"] == "numsweep" and variant == "dbg":
                 rep.bump("sweep_cases")
+    # ---- literals in company: a numeric literal keeps its value whatever literals were read before it in the same text
+    # (every spelling of the sample - plain, leading dot, leading zeros, trailing zeros - after every kind of neighbour)
+    NEIGH = ["0", "00", "007", "1", "0.0", ".5", "10", "0.50", "123456789012345678901234567890", ".0", "000"]
+    n_comp = 400 if tier == "quick" else 20000
+    ccases, cmeta = [], []
+    for _ in range(n_comp // 20):
+        texts, wants = [], []
+        for _j in range(20):
+            lits = []
+            for _k in range(rng.randint(2, 5)):
+                n = rng.randint(1, 12)
+                frac = rng.choice([0, 0, 1, 2, 3, 6, 12, 33])
+                digits = "".join(rng.choice("0123456789") for _ in range(n))
+                if frac == 0:
+                    lit = str(int(digits)) if rng.random() < 0.6 else digits  # leading zeros kept in 40 %
+                else:
+                    fd = "".join(rng.choice("0000123456789") for _ in range(frac))
+                    ip = rng.choice(["0", "", "0", str(int(digits)), "00"])
+                    lit = "%s.%s" % (ip, fd)
+                lits.append(lit)
+            seq = []
+            for lit in lits:
+                seq.append(rng.choice(NEIGH))
+                seq.append(lit)
+            form = rng.randrange(4)
+            if form == 0:
+                text = "[%s]" % ", ".join(seq)
+            elif form == 1:
+                text = "[%s]" % ", ".join("%s + %s" % (seq[k], seq[k + 1]) if k + 1 < len(seq) else seq[k] for k in range(0, len(seq), 2))
+                seq = None
+            elif form == 2:
+                text = "[%s]" % ", ".join("if %s > 1 then %s else %s" % (seq[k], seq[k + 1], seq[k + 1]) for k in range(0, len(seq), 2))
+                seq = [seq[k + 1] for k in range(0, len(seq), 2)]
+            else:
+                text = "[%s]" % ", ".join("max(%s, %s)" % (seq[k], seq[k + 1]) for k in range(0, len(seq), 2))
+                seq = None
+            if seq is None:
+                # expected by exact arithmetic on the written values
+                parts = re.findall(r"(max\(([^,]+), ([^)]+)\)|([^,\[\]]+) \+ ([^,\[\]]+))", text)
+                want = []
+                for whole, m1, m2, a1, a2 in parts:
+                    lit = lambda t: CTX34.create_decimal(t.strip())  # a literal is rounded to 34 digits when it is read
+                    want.append(max(lit(m1), lit(m2)) if m1 else CTX34.add(lit(a1), lit(a2)))
+            else:
+                want = [Decimal(x) for x in seq]
+            texts.append(text)
+            wants.append(want)
+        ccases.append({"op": "evalmany", "scope": [[]], "texts": texts})
+        cmeta.append(wants)
+    cres, _ = runner.run_cases("dbg", ccases, rep.workdir, label="company")
+    n_company = 0
+    for case, wants, res in zip(ccases, cmeta, cres):
+        if "harness_error" in res or res.get("missing"):
+            raise runner.Inconclusive("driver harness error: %s" % json.dumps(res)[:300])
+        if "rs" not in res:
+            rep.violation(crash_signature(res, "c07-company"), "batch died: %s" % json.dumps(res)[:400], {"variant": "dbg", "case": case})
+            continue
+        for text, want, r in zip(case["texts"], wants, res["rs"]):
+            rep.count()
+            n_company += 1
+            one = {"variant": "dbg", "case": {"op": "eval", "scope": [[]], "text": text}, "expected": [str(w) for w in want]}
+            if "panic" in r:
+                rep.violation(panic_signature(r["panic"]) + ":literals-in-company", "panic on `%s`" % text[:200], one)
+                continue
+            got = r.get("v")
+            ok = isinstance(got, list) and len(got) == len(want) and all(isinstance(g, dict) and "n" in g and Decimal(g["n"]) == CTX34.create_decimal(w) for g, w in zip(got, want))
+            if not ok:
+                one["observed"] = r
+                rep.violation("feel_literal_value_in_company", "`%s` evaluated to %s, the written values are %s" % (text[:200], json.dumps(got)[:200], [str(w) for w in want][:8]), one)
+    rep.extra["expressions_with_several_literals"] = n_company
     # valgrind memcheck replay of a stride of the sweep (the 43-byte buffer, CStr::from_ptr, decQuadToString)
     nv = 8 if tier == "quick" else 160
     runner.memcheck_replay(rep, cases[:: max(1, len(cases) // nv)][:nv])
